@@ -215,7 +215,12 @@ func (r *schemaLoader) Resolve(ref *Ref, target interface{}, basePath string) er
 	return r.resolveRef(ref, target, basePath)
 }
 
-func (r *schemaLoader) deref(input interface{}, parentRefs []string, basePath string) error {
+// deref follows a chain of $ref on a parameter, response, path item or schema.
+//
+// The last $ref followed remains set on the input. Since every hop may enter another document, deref reports
+// where the chain ended: the resolver and the base path of the document which holds that last $ref, and
+// against which the caller must interpret it.
+func (r *schemaLoader) deref(input interface{}, parentRefs []string, basePath string) (*schemaLoader, string, error) {
 	var ref *Ref
 	switch refable := input.(type) {
 	case *Schema:
@@ -227,32 +232,34 @@ func (r *schemaLoader) deref(input interface{}, parentRefs []string, basePath st
 	case *PathItem:
 		ref = &refable.Ref
 	default:
-		return fmt.Errorf("unsupported type: %T: %w", input, ErrDerefUnsupportedType)
+		return r, basePath, fmt.Errorf("unsupported type: %T: %w", input, ErrDerefUnsupportedType)
 	}
 
 	curRef := ref.String()
 	if curRef == "" {
-		return nil
+		return r, basePath, nil
 	}
 
 	normalizedRef := normalizeRef(ref, basePath)
 	normalizedBasePath := normalizedRef.RemoteURI()
 
 	if r.isCircular(normalizedRef, basePath, parentRefs...) {
-		return nil
+		return r, basePath, nil
 	}
 
 	if err := r.resolveRef(ref, input, basePath); r.shouldStopOnError(err) {
-		return err
+		return r, basePath, err
 	}
 
 	if ref.String() == "" || ref.String() == curRef {
 		// done with rereferencing
-		return nil
+		return r, basePath, nil
 	}
 
 	parentRefs = append(parentRefs, normalizedRef.String())
-	return r.deref(input, parentRefs, normalizedBasePath)
+
+	// the next $ref has been found in the document we just jumped to: it is resolved against that document
+	return r.transitiveResolver(basePath, *normalizedRef).deref(input, parentRefs, normalizedBasePath)
 }
 
 func (r *schemaLoader) shouldStopOnError(err error) bool {
